@@ -120,7 +120,7 @@ def run(chk: Check):
                       "summarised_calls": dict(tr.interp.summary_uses)})
     tr.feed(chk, {"S1-list-field": "S1-list-field", "S1-field-kind": "S1-field-kind", "S2-required": "S2-required",
                   "S3-ctx": "S3-ctx", "S4-location": "S4-location", "S6-singleton-write": "S6-singleton-write",
-                  "A5-loc-key": "A5-loc-key", "A5-loc-pair": "A5-loc-pair"})
+                  "A5-loc-key": "A5-loc-key", "A5-loc-pair": "A5-loc-pair", "S1-joinedstr-bytes": "S1-joinedstr-bytes"})
     rule_s5(chk, ir)
     rule_s6(chk)
     chk.floor("S1-list-field", 100)
